@@ -62,6 +62,64 @@ def subs(rel, pairs):
     return edit
 
 
+def apply_unified_diff(diff_text):
+    """Apply a git unified diff to the current sources in memory -> overlay {rel: new source}."""
+    import re
+    overlay = {}
+    files = re.split(r'^diff --git ', diff_text, flags=re.M)[1:]
+    for f in files:
+        m = re.search(r'^\+\+\+ [ab]/(.+)$', f, re.M)
+        if not m:
+            raise Skip('cannot read file name in diff')
+        rel = m.group(1).strip()
+        src = overlay.get(rel, read(rel)).split('\n')
+        hunks = re.split(r'^@@ .*?@@.*$', f, flags=re.M)[1:]
+        heads = re.findall(r'^@@ -(\d+)(?:,\d+)? \+\d+(?:,\d+)? @@', f, re.M)
+        shift = 0
+        for head, h in zip(heads, hunks):
+            lines = h.split('\n')[1:]
+            if lines and lines[-1] == '':
+                lines = lines[:-1]
+            old = [l[1:] for l in lines if l[:1] in (' ', '-')]
+            new = [l[1:] for l in lines if l[:1] in (' ', '+')]
+            start = int(head) - 1 + shift
+            pos = None
+            for delta in sorted(range(-60, 61), key=abs):
+                i = start + delta
+                if 0 <= i and src[i:i + len(old)] == old:
+                    pos = i
+                    break
+            if pos is None:
+                raise Skip('hunk at line %s of %s does not apply to the current tree' % (head, rel))
+            src[pos:pos + len(old)] = new
+            shift += len(new) - len(old)
+        overlay[rel] = '\n'.join(src)
+    return overlay
+
+
+def seeded_cases(prop):
+    """Confirmed seeded defects (from independent sub-agents) that the checks are known to detect."""
+    import glob
+    import json
+    out = []
+    for d in sorted(glob.glob(os.path.join(HERE, 'seeded', prop + '-*'))):
+        try:
+            meta = json.load(open(os.path.join(d, 'meta.json')))
+            diff = open(os.path.join(d, 'patch.diff')).read()
+        except OSError:
+            continue
+        if meta.get('kind') == 'refactoring':
+            # a confirmed behaviour-preserving refactoring: the check must stay silent
+            out.append({'name': 'refactoring:' + os.path.basename(d), 'kind': 'twin',
+                        'edit': (lambda t=diff: apply_unified_diff(t))})
+            continue
+        if not meta.get('detected'):
+            continue
+        out.append({'name': 'seeded:' + os.path.basename(d), 'kind': 'mutant', 'expect': None,
+                    'edit': (lambda t=diff: apply_unified_diff(t))})
+    return out
+
+
 def _failing_keys(prop, overlay):
     mod = importlib.import_module('props.' + prop)
     program = Program(overlay=overlay)
@@ -86,9 +144,10 @@ def _run_case(args):
 def cases_for(prop):
     try:
         mod = importlib.import_module('selftest.' + prop)
+        own = list(mod.cases())
     except ModuleNotFoundError:
-        return []
-    return list(mod.cases())
+        own = []
+    return own + seeded_cases(prop)
 
 
 def run_selftest(prop, seed=0, verbose=False, jobs=16):
@@ -159,7 +218,7 @@ def run_selftest(prop, seed=0, verbose=False, jobs=16):
 
 if __name__ == '__main__':
     from selftest.runner import run_selftest      # one module identity for Skip
-    props = sys.argv[1:] or sorted(f[:-3] for f in os.listdir(os.path.join(HERE, 'selftest'))
+    props = sys.argv[1:] or sorted(f[:-3] for f in os.listdir(os.path.join(HERE, 'props'))
                                    if f.startswith('C') and f.endswith('.py'))
     rc = 0
     for p in props:
